@@ -218,4 +218,82 @@ theorem lin_defect (P : X86Params) (hP : IsLvl P) :
 theorem linK_identity : 2 ^ 64 = x1.c * x1.linK + 1 ∧ 2 ^ 64 ≠ x3.c * x3.linK + 1 ∧ 2 ^ 64 ≠ x5.c * x5.linK + 1 := by
   decide
 
+
+/-! ### `lindiv31abs` -/
+
+theorem ones_and (x : Nat) (hx : x < 2 ^ 64) : (2 ^ 64 - 1) &&& x = x := by
+  rw [Nat.and_comm, Nat.and_two_pow_sub_one_eq_mod, Nat.mod_eq_of_lt hx]
+
+theorem abs64_lt (f : Nat) : abs64 f ≤ 2 ^ 63 := by
+  unfold abs64 neg64; split <;> omega
+
+/-- value-level core of `lindiv31abs`: the `(n+1)`-limb two's complement arithmetic, with the per-operand
+    products abstracted: `Ta + nA = R·sa + pA` (`Ta` the unsigned limb product, `sa` the correction word,
+    `pA − nA` the signed product), likewise for `b`.  `Z = pos − neg`. -/
+theorem lindiv_core (P : X86Params) (hP : IsLvl P) (Ta Tb sa sb pA nA pB nB t dn x : Nat)
+    (h1 : Ta + nA = P.R * sa + pA) (h2 : Tb + nB = P.R * sb + pB)
+    (hsa : sa ≤ 2 ^ 31) (hsb : sb ≤ 2 ^ 31)
+    (hpA : pA ≤ (2 ^ (64 * P.n - 1) - 1) * 2 ^ 31) (hnA : nA ≤ (2 ^ (64 * P.n - 1) - 1) * 2 ^ 31)
+    (hpB : pB ≤ (2 ^ (64 * P.n - 1) - 1) * 2 ^ 31) (hnB : nB ≤ (2 ^ (64 * P.n - 1) - 1) * 2 ^ 31)
+    (ht : t = (Ta + Tb) / P.R % 2 ^ 64)
+    (hdn : dn = sub64 (sub64 t sa) sb)
+    (hx : x = ((Ta + Tb) % P.R + dn * P.R) / 2 ^ 31 % P.R) :
+    (nA + nB ≤ pA + pB → sgnw dn = 0 ∧ x = (pA + pB - (nA + nB)) / 2 ^ 31) ∧
+    (pA + pB < nA + nB → sgnw dn = 2 ^ 64 - 1 ∧
+      (P.R - x) % P.R = (nA + nB - (pA + pB) + (2 ^ 31 - 1)) / 2 ^ 31) := by
+  have hdn' : dn = (t + 2 ^ 65 - sa - sb) % 2 ^ 64 := by
+    have : t < 2 ^ 64 := by rw [ht]; exact Nat.mod_lt _ (by decide)
+    unfold sub64 at hdn; omega
+  clear hdn
+  generalize hS : sa + sb = S at *
+  have hSle : S ≤ 2 ^ 32 := by omega
+  generalize hpos : pA + pB = pos at *
+  generalize hneg : nA + nB = neg at *
+  generalize hDD : Ta + Tb = D at *
+  have hD : D + neg = P.R * S + pos := by
+    rw [← hDD, ← hneg, ← hS, ← hpos, Nat.mul_add]; omega
+  have hposlt : pos < P.R * 2 ^ 31 - 2 ^ 32 + 1 := by
+    rcases hP with rfl | rfl | rfl <;> lvl_unfold <;> omega
+  have hneglt : neg < P.R * 2 ^ 31 - 2 ^ 32 + 1 := by
+    rcases hP with rfl | rfl | rfl <;> lvl_unfold <;> omega
+  have hdn'' : dn = (t + 2 ^ 65 - S) % 2 ^ 64 := by omega
+  have hR64 : 2 ^ 64 ≤ P.R := by rcases hP with rfl | rfl | rfl <;> decide
+  clear hdn' h1 h2 hpA hnA hpB hnB hS hpos hneg hDD hsa hsb
+  constructor
+  · intro hle
+    have e1 : D = P.R * S + (pos - neg) := by omega
+    have e2 : D / P.R = S + (pos - neg) / P.R := by
+      rw [e1, Nat.mul_add_div (by rcases hP with rfl | rfl | rfl <;> decide)]
+    have e3 : D % P.R = (pos - neg) % P.R := by
+      rw [e1, Nat.mul_add_mod]
+    have e4 : (pos - neg) / P.R < 2 ^ 31 := by
+      apply Nat.div_lt_of_lt_mul; omega
+    have e5' : t = S + (pos - neg) / P.R := by
+      rw [ht, e2]; apply Nat.mod_eq_of_lt; omega
+    have e5 : dn = (pos - neg) / P.R := by
+      rw [hdn'', e5']
+      generalize (pos - neg) / P.R = f at *
+      omega
+    have e6 : D % P.R + dn * P.R = pos - neg := by
+      rw [e3, e5, Nat.mul_comm]; exact Nat.mod_add_div _ _
+    rw [hx, e6]
+    refine ⟨?_, ?_⟩
+    · unfold sgnw; rw [e5]; split <;> omega
+    · apply Nat.mod_eq_of_lt
+      apply Nat.div_lt_of_lt_mul; rw [Nat.mul_comm]; omega
+  · intro hlt
+    have hW : D + (neg - pos) = P.R * S := by omega
+    have hWlt : neg - pos < P.R * 2 ^ 31 - 2 ^ 32 + 1 := by omega
+    have hWpos : 0 < neg - pos := by omega
+    generalize neg - pos = W at *
+    clear hD hposlt hneglt hlt
+    have hdnv : 2 ^ 63 ≤ dn % 2 ^ 64 ∧ D % P.R + dn * P.R + W = P.R * 2 ^ 64 := by
+      rcases hP with rfl | rfl | rfl <;> lvl_unfold <;> omega
+    refine ⟨?_, ?_⟩
+    · unfold sgnw; rw [if_pos hdnv.1]
+    · rw [hx]
+      have e1 : D % P.R + dn * P.R = P.R * 2 ^ 64 - W := by omega
+      rw [e1]
+      rcases hP with rfl | rfl | rfl <;> lvl_unfold <;> omega
+
 end SqiProofs.GfX86
